@@ -249,7 +249,6 @@ int main(int argc, char **argv)
 		vx_bfs_run(&b);
 		vx_count("states", b.states); vx_count("transitions", b.transitions);
 		vx_count("traces", b.transitions);	/* every transition is one step of the real code compared with the model */
-		vx_count("distinct", b.states);
 		vx_count("scope_guard_disabled_ops", b.disabled);
 		vx_and("exhaustive", b.fixpoint);
 		vx_max("max_depth", (uint64_t)b.depth_done);
